@@ -105,6 +105,9 @@ class Wrapp(util.WrapperMixin):
         self.need_blah = False
         self.header_type_include = util.Header(newlibrary)  # header files in module header
         self.shared_helper = {} # All accumulated helpers
+        # Destructor table of this library (per instance).
+        self.capsule_code = {}
+        self.capsule_order = []
         update_statements_for_language(self.language)
 
     def XXX_begin_output_file(self):
@@ -2826,9 +2829,6 @@ extern PyObject *{PY_prefix}error_obj;
                 "PyCapsule_GetContext(cap));", fmt)
         output.append("context->dtor(ptr);")
         output.append("-}")
-
-    capsule_code = {}
-    capsule_order = []
 
     def add_capsule_code(self, name, lines):
         """Add unique names to capsule_code.
